@@ -59,6 +59,7 @@ class RecipeRun:
         self.lc = LifeCycle()
         self.handles = {}       # name -> object the user holds (declared object / returned by create_*)
         self.handle_fps = {}    # name -> fingerprint when handed over
+        self.handle_views = {}  # name -> what the object's own observers say when handed over (a copy, not their return value)
         self.eager = {}         # name -> current object of the eager reference
         self.eager_ok = True    # False once an accepted step was infeasible for the eager reference
         self.eager_fail_step = None
@@ -71,6 +72,7 @@ class RecipeRun:
         self.n_ok_state = 0
         self.excused = set()    # known-finding ids whose trigger matched in this run (run-level excuses)
         self.held = []          # slices the user built and handed to recipe calls: (label, object, fingerprint)
+        self.held_info = []     # (plate name, selector) of each
         self.near_capacity_fill = False
         self.near_boundary_transfer = False
         self.min_margin_rel = F(1)
@@ -132,6 +134,7 @@ class RecipeRun:
             sl = slice_of(h, sel)
             if len(self.held) < 40:
                 self.held.append((f"slice of {name} handed to call {self.idx}", sl, fingerprint(self.rep, sl)))
+                self.held_info.append((name, sel))
             return sl
         return h
 
@@ -345,6 +348,7 @@ class RecipeRun:
                     h = out[1]
                     self.handles[declares] = h
                     self.handle_fps[declares] = fingerprint(rep, h)
+                    self.handle_views[declares] = self.view(h)
                     if not isinstance(h, rep.Container):
                         self.V('C08', 'create_returns', key, f"{k} returned {type(h).__name__}")
                     elif h.contents or h.volume != 0:
@@ -379,6 +383,7 @@ class RecipeRun:
         self.lc.declared.append(name)
         self.handles[name] = obj
         self.handle_fps[name] = fingerprint(self.rep, obj)
+        self.handle_views[name] = self.view(obj)
         self.eager[name] = obj
         # an object declared in the middle of a program held its declaration-time contents during all earlier steps
         m = None
@@ -575,6 +580,19 @@ class RecipeRun:
         return out
 
     # ------------------------------------------------------------------ invariants
+    def view(self, obj):
+        """What the object says about itself through its observers - "observably unchanged" covers these as well as the
+        attributes.  The answers are copied into plain tuples: memoised return values may be shared objects."""
+        try:
+            subs = tuple(sorted((s.name, s._type, s.mol_weight, s.density) for s in obj.get_substances()))
+        except Exception as e:  # noqa
+            subs = ('raised', type(e).__name__)
+        try:
+            vol = repr(obj.get_volume('L')) if isinstance(obj, self.rep.Container) else repr(obj.get_volumes().tolist())
+        except Exception as e:  # noqa
+            vol = ('raised', type(e).__name__)
+        return (subs, vol)
+
     def check_handles(self, k):
         """C04: every object handed to (or received from) the recipe is unchanged."""
         rep = self.rep
@@ -583,6 +601,13 @@ class RecipeRun:
             if now != self.handle_fps[n]:
                 self.V('C04', 'recipe_mutated_argument', ('recipe.' + k, 'handle'), f"{n} changed: {fp_diff(self.handle_fps[n], now)}")
                 self.handle_fps[n] = now
+                self.handle_views[n] = self.view(h)
+            elif k == 'bake' or self.idx % 4 == 0:
+                v = self.view(h)
+                if v != self.handle_views[n]:
+                    self.V('C04', 'recipe_mutated_argument', ('recipe.' + k, 'handle-view'),
+                           f"{n}: attributes unchanged, but its observers now answer {v!r}, when handed over {self.handle_views[n]!r}")
+                    self.handle_views[n] = v
         for j, (label, obj, fp) in enumerate(self.held):
             now = fingerprint(rep, obj)
             if now != fp:
@@ -682,10 +707,36 @@ class RecipeRun:
             if self.recipe.locked:
                 self.V('C16', 'locked_after_failed_bake', key, "recipe is locked although bake raised")
         self.check_handles('bake')
+        self.check_held_reuse()
         if self.baked is not None and lc.locked and kind != 'ok':
             self.check_frozen('bake')
         self.log.append(rec)
         return rec
+
+    def check_held_reuse(self):
+        """C07 / C17 outside the recipe, on an object that went through it: the slice object the user handed to a recipe call
+        still denotes those wells of the plate it was taken from, so using it directly gives the same result as writing
+        plate[...] afresh."""
+        rep = self.rep
+        for j in list(range(len(self.held)))[:2] + list(range(len(self.held)))[-1:]:
+            label, sl, _ = self.held[j]
+            name, sel = self.held_info[j]
+            h = self.handles.get(name) or self.obj(name)
+            if h is None or not isinstance(h, rep.Plate):
+                continue
+            what = M.KIND_CODE[M.LIQUID]
+            a = self.call(lambda: sl.remove(what))
+            b = self.call(lambda: slice_of(h, sel).remove(what))
+            self.stats['probe:held_slice_reused_after_recipe'] += 1
+            if a[0] != b[0]:
+                for prop in ('C07', 'C17'):
+                    self.V(prop, 'slice_reused_after_recipe', ('remove', 'outcome'), f"{label}: remove(liquids) through the kept slice object: {a[0]}, through a fresh slice of the same plate: {b[0]}")
+            elif a[0] == 'ok':
+                fa, fb = fingerprint(rep, a[1]), fingerprint(rep, b[1])
+                if fa != fb:
+                    for prop in ('C07', 'C17'):
+                        self.V(prop, 'slice_reused_after_recipe', ('remove', 'result'),
+                               f"{label}: remove(liquids) through the kept slice object differs from the same call on a fresh slice of the same plate: {fp_diff(fb, fa)}")
 
     def check_stages_registered(self):
         """C16: every stage the recipe accepted (incl. one closed by bake, incl. empty ones) is a timeframe afterwards."""
